@@ -1,4 +1,8 @@
 import N0Verif.Model.XPathApi
+import N0Verif.Proofs.XPathPureApi
+import N0Verif.Proofs.XPathPureInfix
+import N0Verif.Proofs.XPathPureDiverge
+import N0Verif.Proofs.XPathTok
 /-!
 # C04 — lookups are total and pure: a miss yields the default, never a change
 
@@ -117,13 +121,15 @@ theorem C04_qmark_miss_is_empty (fuel : Nat) (cls : Cls) (kvs : List (Str × Val
 
 /-- **Totality (full statement, not proved).**  For every tree and every string, `get` returns
 normally.  On the pinned tree this is false for paths with a `new()` step (finding C04-a:
-`d.get('[new()]')` lets `KeyError` escape); it is carried by the correspondence streams and the
-evaluator only. -/
+`d.get('[new()]')` lets `KeyError` escape, `C04_new_keyerror_cex`) and for trees with a key named
+`*` (finding C04-d: the search never ends, `C04_star_key_diverges_cex`).  Proved away from
+`new()` up to the model-only outcomes: `C04_get_total_partial`. -/
 def C04_get_total_stmt : Prop :=
   ∀ (t : Val) (s : Str) (d : Val), ∃ n, ∀ fuel ≥ n, ∃ v, (XPath.get fuel t s d).2 = .ok v
 
 /-- **Purity (full statement, not proved).**  No lookup changes the tree.  False on the pinned
-tree for paths with a `new()` step (finding C04-a); see `C04_new_writes_cex`. -/
+tree for paths with a `new()` step (finding C04-a); see `C04_new_writes_cex`.  Proved away from
+`new()`: `C04_pure_partial`. -/
 def C04_pure_stmt : Prop :=
   ∀ (t : Val) (s : Str) (d : Val) (fuel : Nat), (XPath.get fuel t s d).1 = t
 
@@ -142,5 +148,203 @@ theorem C04_new_keyerror_cex :
 example : (XPath.get 20 exTree ['a', '/', 'z'] (.str ['D'])).2 = .ok (.str ['D']) := by decide
 example : (getItem 20 exTree ['?', 'a', '/', 'z']).2 = .ok emptyStr := by decide
 example : (getItem 20 exTree ['a', '/', 'z']).2 = .error .IndexError := by decide
+
+/-! ## Purity and totality away from `new()`
+
+`Safe s`: the text `new()` does not occur in `s` as a substring.  `SafeTree t`: no dict key
+anywhere in `t` contains `new()`.  Under these two hypotheses the resolver can never see the
+index text `new()` — every token it synthesises (pieces of the path, of `found`, of dict keys,
+decimal indexes, the fixed pieces `[ ] / ' .. text() True False == != ~~ !~`) is again `Safe`
+(`Proofs/XPathPure.lean`) — so the only branch of `_find` that writes is unreachable.  The
+theorems hold for every fuel, every tree, every string (well-formed or not), both root kinds,
+and for all branches of the resolver (`..`, `*`, `[*]`, conditions, `text()`, pure index,
+implicit fan-out): `Proofs/XPathPureFind.lean`, one induction on the fuel. -/
+
+/-- `new()` does not occur in the path -/
+def Safe (s : Str) : Prop := NoNew s
+/-- `new()` does not occur in any dict key of the tree -/
+def SafeTree (t : Val) : Prop := SafeKeys NoNew t
+
+instance : DecidablePred Safe := fun s => inferInstanceAs (Decidable (NoNew s))
+
+/-- the model-only outcomes: a run that exhausted its fuel, an input outside the model's scope -/
+def modelOnly (e : PyErr) : Prop := e = .OutOfFuel ∨ e = .Unsupported
+
+/-- **Purity of the resolver** (dict-side `_find`, every branch): from safe tokens, a safe
+`found` string and a tree with safe keys, a search that returns, returns the root it was given. -/
+theorem C04_findD_pure_partial (fuel : Nat) (root : Val) (sp : Pos) (entry rl : Bool) (toks : List Str)
+    (par : PRef) (found : Str) (root' : Val) (r : Res)
+    (hroot : SafeTree root) (hpar : SafeRef NoNew root par) (htoks : ∀ t ∈ toks, Safe t) (hfound : Safe found)
+    (h : findD fuel root sp false entry toks par rl found = .ok (root', r)) : root' = root := by
+  have := (find_post (P := NoNew) root hroot fuel).1 sp entry toks par rl found hpar htoks hfound
+  rw [h] at this
+  exact this.1
+
+/-- **Exception classes of the resolver**: under the same hypotheses a failing search fails with
+one of the four classes `_get` funnels, or with a model-only outcome.  In particular `KeyError`
+(which `parent[name]` of the `..` branch could raise) and `AttributeError` cannot occur. -/
+theorem C04_findD_errclass_partial (fuel : Nat) (root : Val) (sp : Pos) (entry rl : Bool) (toks : List Str)
+    (par : PRef) (found : Str) (e : PyErr)
+    (hroot : SafeTree root) (hpar : SafeRef NoNew root par) (htoks : ∀ t ∈ toks, Safe t) (hfound : Safe found)
+    (h : findD fuel root sp false entry toks par rl found = .error e) : caught e = true ∨ modelOnly e := by
+  have := (find_post (P := NoNew) root hroot fuel).1 sp entry toks par rl found hpar htoks hfound
+  rw [h] at this
+  by_cases hc : caught e = true
+  · exact Or.inl hc
+  · exact Or.inr (okErr_not_caught this hc)
+
+/-- the same two facts for the list-side `_find` -/
+theorem C04_findL_partial (fuel : Nat) (root : Val) (sp : Pos) (rl : Bool) (toks : List Str)
+    (par : PRef) (found : Str)
+    (hroot : SafeTree root) (hpar : SafeRef NoNew root par) (htoks : ∀ t ∈ toks, Safe t) (hfound : Safe found) :
+    (∀ root' r, findL fuel root sp toks par rl found = .ok (root', r) → root' = root) ∧
+    (∀ e, findL fuel root sp toks par rl found = .error e → caught e = true ∨ modelOnly e) := by
+  have := (findL_post (P := NoNew) root hroot fuel).1 sp toks par rl found hpar htoks hfound
+  constructor
+  · intro root' r h; rw [h] at this; exact this.1
+  · intro e h; rw [h] at this
+    by_cases hc : caught e = true
+    · exact Or.inl hc
+    · exact Or.inr (okErr_not_caught this hc)
+
+/-- **Purity (partial: no `new()` in the path or in a key).**  Item access, `get` and `first`
+return the tree they were given — found or not, well-formed path or not, dict or list root. -/
+theorem C04_pure_partial (fuel : Nat) (t : Val) (s : Str) (d : Val) (hs : Safe s) (ht : SafeTree t) :
+    (XPath.get fuel t s d).1 = t ∧ (getItem fuel t s).1 = t ∧ (first fuel t s d).1 = t := by
+  refine ⟨(getCore_safe (P := NoNew) fuel t s d false true hs ht).1,
+          (getCore_safe (P := NoNew) fuel t s Val.none true true hs ht).1, ?_⟩
+  rw [C04_first_eq]
+  have := (getCore_safe (P := NoNew) fuel t s d false false hs ht).1
+  cases h : getCore fuel t s d false false with
+  | mk t' res =>
+    rw [h] at this
+    cases res <;> exact this
+
+/-- **Totality (partial: no `new()` in the path or in a key).**  `get` and `first` return
+normally: no Python exception class escapes.  The only other outcomes are the model's own
+`OutOfFuel`/`Unsupported`. -/
+theorem C04_get_total_partial (fuel : Nat) (t : Val) (s : Str) (d : Val) (hs : Safe s) (ht : SafeTree t) :
+    ((∃ v, (XPath.get fuel t s d).2 = .ok v) ∨ ∃ e, (XPath.get fuel t s d).2 = .error e ∧ modelOnly e) ∧
+    ((∃ v, (first fuel t s d).2 = .ok v) ∨ ∃ e, (first fuel t s d).2 = .error e ∧ modelOnly e) := by
+  constructor
+  · have h := (getCore_safe (P := NoNew) fuel t s d false true hs ht).2
+    unfold XPath.get
+    cases hr : (getCore fuel t s d false true).2 with
+    | ok v => exact Or.inl ⟨v, rfl⟩
+    | error e =>
+      right
+      rcases h e hr with ⟨hf, _⟩ | hm
+      · cases hf
+      · exact ⟨e, rfl, hm⟩
+  · have h := (getCore_safe (P := NoNew) fuel t s d false false hs ht).2
+    rw [C04_first_eq]
+    cases hc : getCore fuel t s d false false with
+    | mk t' res =>
+      rw [hc] at h
+      cases res with
+      | ok v => exact Or.inl ⟨_, rfl⟩
+      | error e =>
+        right
+        rcases h e rfl with ⟨hf, _⟩ | hm
+        · cases hf
+        · exact ⟨e, rfl, hm⟩
+
+/-- **Item access raises only the allowed classes (partial).**  Besides the model-only
+outcomes, item access raises one of KeyError/IndexError/ValueError/TypeError/SyntaxError, and
+a `?`-prefixed path raises nothing. -/
+theorem C04_getitem_errclass_partial (fuel : Nat) (t : Val) (s : Str) (e : PyErr) (hs : Safe s) (ht : SafeTree t)
+    (h : (getItem fuel t s).2 = .error e) :
+    (allowed e = true ∧ startsWith s ['?'] = false) ∨ modelOnly e := by
+  rcases (getCore_safe (P := NoNew) fuel t s Val.none true true hs ht).2 e h with ⟨_, hq, hc⟩ | hm
+  · left
+    refine ⟨?_, hq⟩
+    rcases hc with hc | rfl
+    · cases e <;> simp_all [allowed, caught]
+    · rfl
+  · exact Or.inr hm
+
+/-- **A key named `*` makes a `*` step recurse for ever** (counter-example to totality that does
+not involve `new()`, and to fuel adequacy for arbitrary trees).  `n0dict({'*': 1}).get('*/x')`:
+the wildcard loop calls `_find([key] + xpath_list)`, which re-inserts the wildcard, and the key
+`*` is again a wildcard.  The model runs out of fuel for *every* fuel; the implementation raises
+RecursionError, which `get` does not funnel (finding C04-d).  Path and tree are `Safe`, so the
+`OutOfFuel` alternative of `C04_get_total_partial` cannot be dropped without a hypothesis on keys. -/
+theorem C04_star_key_diverges_cex (fuel : Nat) (d : Val) :
+    XPath.get fuel starTree ['*', '/', 'x'] d = (starTree, .error .OutOfFuel) := by
+  have htok : tokenize ['*', '/', 'x'] = starToks 0 := by decide
+  have h := (star_diverges fuel).1 0 true true
+  unfold XPath.get getCore
+  simp only [starTree] at h ⊢
+  have hq : startsWith ['*', '/', 'x'] ['?'] = false := by decide
+  have hp : hasPathChar ['*', '/', 'x'] = true := by decide
+  simp only [hq, hp, htok, h, Bool.false_eq_true, if_false, if_true]
+  rfl
+
+example : Safe ['*', '/', 'x'] ∧ SafeTree starTree := by
+  refine ⟨by decide, ?_⟩
+  simp only [SafeTree, starTree, SafeKeys, SafeKeysK, and_true]
+  decide
+
+/-- every dict key of the tree is a plain name (non-empty, none of `/ [ ] * ? = ~` quotes or
+blanks, not `..`) — the trees of the property's quantifier and of the harness -/
+def PlainTree (t : Val) : Prop := SafeKeys PlainKey t
+
+/-- **Fuel adequacy (statement, not proved).**  On a tree with plain-name keys some fuel,
+depending on the tree and the path, is enough: `OutOfFuel` then is an artefact of the model and
+does not stand for an infinite search.  (Without the hypothesis on keys it is false:
+`C04_star_key_diverges_cex`.  The resolver re-resolves its `found` string from the root in the
+`..` step and after a `text()` condition, so no simple measure on the token list decreases; the
+correspondence streams never met a lookup on a plain-key tree that exhausts the harness's fuel.) -/
+def C04_fuel_enough_stmt : Prop :=
+  ∀ (t : Val) (s : Str), Safe s → PlainTree t →
+    ∃ n, ∀ fuel ≥ n, ∀ d, (XPath.get fuel t s d).2 ≠ .error .OutOfFuel
+
+/-! Non-vacuity of the partial theorems: the hypotheses hold for paths that exercise the
+`..`, `*`, `[*]`, condition, `text()` and index branches, and for a path that is not `NoW`
+(it contains the letter w) but is `Safe`. -/
+
+def exTree2 : Val :=
+  .dict .n0 [(['r'], .list .n0 [.dict .n0 [(['i', 'd'], .str ['1']), (['w'], .str ['x'])],
+                                .dict .n0 [(['i', 'd'], .str ['2']), (['w'], .str ['y'])]]),
+             (['n', 'e', 'w'], .int 7)]
+
+theorem exTree_safe : SafeTree exTree := by
+  simp only [SafeTree, exTree, SafeKeys, SafeKeysK, and_true]
+  exact ⟨by decide, by decide⟩
+
+theorem exTree2_safe : SafeTree exTree2 := by
+  simp only [SafeTree, exTree2, SafeKeys, SafeKeysK, SafeKeysL, and_true]
+  refine ⟨by decide, ⟨⟨by decide, by decide⟩, ⟨by decide, by decide⟩⟩, by decide⟩
+
+-- r[id=2]/w : condition + `..` + text(); found
+example : Safe ['r', '[', 'i', 'd', '=', '2', ']', '/', 'w'] := by decide
+example : XPath.get 40 exTree2 ['r', '[', 'i', 'd', '=', '2', ']', '/', 'w'] .none
+    = (exTree2, .ok (.list .n0 [.str ['y']])) := by decide +kernel
+-- r/*/w, r[*]/id, */[0]/w, r[-1]/../new : fan-out, wildcards, index, `..`
+example : XPath.get 40 exTree2 ['r', '[', '*', ']', '/', 'i', 'd'] .none
+    = (exTree2, .ok (.list .n0 [.str ['1'], .str ['2']])) := by decide +kernel
+example : Safe ['r', '[', '-', '1', ']', '/', '.', '.', '/', 'n', 'e', 'w'] := by decide
+example : (XPath.get 40 exTree2 ['r', '[', '-', '1', ']', '/', '.', '.', '/', 'n', 'e', 'w'] .none).2
+    = .ok (.int 7) := by decide +kernel
+-- misses: default returned, tree unchanged
+example : XPath.get 40 exTree2 ['r', '[', '5', ']', '/', 'w'] (.str ['D']) = (exTree2, .ok (.str ['D'])) := by decide +kernel
+example : XPath.get 40 exTree2 ['r', '[', 'i', 'd', '=', '3', ']', '/', 'w'] (.str ['D']) = (exTree2, .ok (.str ['D'])) := by
+  decide +kernel
+-- ill-formed path: funnelled
+example : Safe ['r', '[', ']', ']', '[', '/', '/', '='] := by decide
+example : XPath.get 40 exTree2 ['r', '[', ']', ']', '[', '/', '/', '='] (.str ['D']) = (exTree2, .ok (.str ['D'])) := by
+  decide +kernel
+-- the hypothesis is needed: the counter-example path is not `Safe`
+example : ¬ Safe ['a', '/', 'e', '[', 'n', 'e', 'w', '(', ')', ']'] := by decide
+-- item access on a miss raises an allowed class; a list root
+example : (getItem 40 exTree2 ['r', '[', '5', ']', '/', 'w']).2 = .error .IndexError := by decide +kernel
+example : SafeTree (.list .n0 [.dict .n0 [(['k'], .int 1)]]) := by
+  simp only [SafeTree, SafeKeys, SafeKeysK, SafeKeysL, and_true]; decide
+example : XPath.get 40 (.list .n0 [.dict .n0 [(['k'], .int 1)]]) ['[', '0', ']', '/', 'k'] .none
+    = (.list .n0 [.dict .n0 [(['k'], .int 1)]], .ok (.int 1)) := by decide +kernel
+-- the resolver-level theorems: hypotheses inhabited at the root
+example : SafeRef NoNew exTree2 (.at []) := SafeRef_at exTree2_safe []
+example : ∀ t ∈ tokenize ['r', '[', 'i', 'd', '=', '2', ']', '/', 'w'], Safe t :=
+  P_tokenize (P := NoNew) (by decide)
 
 end N0.C04
